@@ -416,11 +416,73 @@ def deliverERC20 (B : Addr → Behaviour σ) (w : World σ) (m : MsgERC20) : Wor
     | none => (w, .rejected "basic")
     | some r => finish w (handleERC20 B w m.contract m.denom m.amount.toNat r (hexToAddr m.sender))
 
+/-! ### the ICS-20 receive hook (x/aggregate/ibc_middleware.go, keeper/ibc_hook.go)
+
+`IBCMiddleware.OnRecvPacket` = the transfer application's `OnRecvPacket`, then — when its acknowledgement is a
+success — `Keeper.OnRecvPacket`: a best-effort `ConvertCoin(voucher, receiver → receiver)` on a cache context that is
+written only when the conversion returns no error; the transfer acknowledgement is returned unchanged. ibc-go core
+runs the whole callback on a cache context written iff the acknowledgement is a success; a panic aborts the
+transaction. Only packets whose token comes from the sending chain are modelled (the transfer application mints the
+voucher `ibc/<hash of port/channel/base denom>`; the hash is computed by the harness). -/
+
+/-- ibc-go transfer `OnRecvPacket`, "sender chain is the source": `MintCoins(transfer, voucher)` then
+`SendCoinsFromModuleToAccount(transfer, receiver, voucher)`. -/
+def Bank.ibcCredit (b : Bank) (recv : Addr) (v : Denom) (amt : Nat) : Outcome Bank :=
+  if !(validDenom v && decide (0 < amt)) then .err "sdk:10"
+  else if b.supply v + amt > maxUint then .panic "Int overflow"
+  else if b.blocked recv then .err "sdk:4"
+  else if b.bal recv v + amt > maxUint then .panic "Int overflow"
+  else .ok ((b.setBal recv v (b.bal recv v + amt)).setSupply v (b.supply v + amt))
+
+/-- An ICS-20 packet as far as it matters here. `receiver = none`: not a bech32 address. -/
+structure IcsPacket where
+  receiver : Option Addr
+  voucher : Denom          -- the voucher denomination the transfer application mints for the packet's denom
+  amount : Int
+
+inductive IcsRes where
+  | errAck        -- error acknowledgement of the transfer application: core writes nothing
+  | kept          -- vouchers delivered, no conversion (denomination not registered, or the conversion failed: rolled back)
+  | converted     -- vouchers delivered and converted for the receiver
+  | cleaned       -- vouchers delivered; the pair of a contract without code was deleted
+  | panicked      -- a panic aborts the transaction
+  deriving Repr, DecidableEq
+
+/-- `Keeper.OnRecvPacket` on the state the transfer application left (`none` = panic).
+`IsDenomRegistered` looks at the denomination index only; `ConvertCoin` is called without `ValidateBasic`,
+sender = receiver. The cache context makes the conversion atomic. -/
+def hookConvert (B : Addr → Behaviour σ) (w1 : World σ) (recv : Addr) (v : Denom) (amt : Nat) :
+    Option (World σ × IcsRes) :=
+  if (w1.byDenom v).isNone then some (w1, .kept)
+  else match handleCoin B w1 v amt recv recv with
+    | .ok (w2, false) => some (w2, .converted)
+    | .ok (w2, true) => some (w2, .cleaned)
+    | .err _ => some (w1, .kept)
+    | .panic _ => none
+
+/-- the world after the transfer application alone -/
+def afterTransfer (w : World σ) (b1 : Bank) : World σ := { w with bank := b1 }
+
+/-- A received ICS-20 packet: `transferRecv ; tryConvert`. -/
+def ics20Recv (B : Addr → Behaviour σ) (w : World σ) (p : IcsPacket) : World σ × IcsRes :=
+  if p.amount ≤ 0 then (w, .errAck)
+  else match p.receiver with
+    | none => (w, .errAck)
+    | some r =>
+      match w.bank.ibcCredit r p.voucher p.amount.toNat with
+      | .err _ => (w, .errAck)
+      | .panic _ => (w, .panicked)
+      | .ok b1 =>
+        match hookConvert B (afterTransfer w b1) r p.voucher p.amount.toNat with
+        | none => (w, .panicked)
+        | some x => x
+
 /-! ### histories: conversions interleaved with everything else users / governance can do to the same state -/
 
 inductive Action where
   | coin (m : MsgCoin)
   | erc20 (m : MsgERC20)
+  | ics20 (p : IcsPacket)                              -- a received ICS-20 packet (transfer + aggregate hook)
   | userTransfer (c caller to : Addr) (amt : Nat)      -- any account calls `transfer` on a token contract
   | userMint (c caller to : Addr) (amt : Nat)          -- any account calls `mint`
   | userBurn (c caller fromA : Addr) (amt : Nat)       -- any account calls `burnCoins`
@@ -455,6 +517,7 @@ def toggleRelay (w : World σ) (token : String) : World σ :=
 def step (B : Addr → Behaviour σ) (w : World σ) : Action → World σ
   | .coin m => (deliverCoin B w m).1
   | .erc20 m => (deliverERC20 B w m).1
+  | .ics20 p => (ics20Recv B w p).1
   | .userTransfer c caller to amt => if w.code c then applyCall w c ((B c).transfer (w.tok c) caller to amt) else w
   | .userMint c caller to amt => if w.code c then applyCall w c ((B c).mint (w.tok c) caller to amt) else w
   | .userBurn c caller fromA amt => if w.code c then applyCall w c ((B c).burnCoins (w.tok c) caller fromA amt) else w
